@@ -245,7 +245,7 @@ func VerifC10Options() {
 }
 
 func VerifC10Batch2() { c10Batch(2, 2, 6) }
-func VerifC10Batch3() { c10Batch(3, 3, 6) }
+func VerifC10Batch3() { c10Batch(3, 2, 6) }
 
 func VerifC10Witness() {
 	zReset()
